@@ -387,6 +387,36 @@ func init() {
 		return c.ret(r)
 	}
 	libMods[sdkT+".NewCoins"] = func(e *Engine, cc *ssa.CallCommon) []string { return nil }
+	libSpecs["("+sdkT+".Coins).IsAllPositive"] = func(c *callCtx) Val {
+		// sanitised coin sets never hold zero or negative amounts, so "all positive" is "non-empty"
+		e := c.e()
+		return c.ret(and(app(">", app("slen", c.args[0].S), "0"), app(">", e.coinsTotal(c.st, c.args[0]), "0")))
+	}
+	libSpecs["("+sdkT+".Coins).IsZero"] = func(c *callCtx) Val { return c.ret(eq(c.e().coinsTotal(c.st, c.args[0]), "0")) }
+	// Coins.Sub / Coins.Add for single-denomination sets: the result is a fresh set with the right total
+	coinsArith := func(op string) specFn {
+		return func(c *callCtx) Val {
+			e := c.e()
+			a := e.coinsTotal(c.st, c.args[0])
+			b := e.coinsTotal(c.st, c.args[1])
+			if op == "-" {
+				c.obl("panic.lib", "Coins.Sub_negative_result", app(">=", a, b))
+			}
+			r := e.freshVal(c.st, "coinsres", c.rt)
+			sl := types.Unalias(c.rt).Underlying().(*types.Slice)
+			hn, hs := e.vc.arrHeapName(sl.Elem())
+			ss := e.vc.structInfo(sl.Elem())
+			tot := e.vc.define("ctot", "Int", app(op, a, b))
+			c0 := app("select", app("select", e.heap(c.st, hn, hs), app("sptr", r.S)), app("idx", app("soff", r.S), "0"))
+			d0 := app("select", app("select", e.heap(c.st, hn, hs), app("sptr", c.args[0].S)), app("idx", app("soff", c.args[0].S), "0"))
+			e.assumeIn(c.st, and(app("<=", app("slen", r.S), "1"), eq(eq(app("slen", r.S), "0"), eq(tot, "0"))))
+			e.assumeIn(c.st, implies(eq(app("slen", r.S), "1"), and(eq(app(ss.fields[1], c0), tot), eq(app(ss.fields[0], c0), app(ss.fields[0], d0)))))
+			e.note("approx", "Coins.Sub/Add modelled for single-denomination coin sets")
+			return r
+		}
+	}
+	libSpecs["("+sdkT+".Coins).Sub"] = coinsArith("-")
+	libSpecs["("+sdkT+".Coins).Add"] = coinsArith("+")
 	libSpecs["("+sdkT+".Coins).Empty"] = func(c *callCtx) Val { return c.ret(eq(app("slen", c.args[0].S), "0")) }
 	libSpecs["("+sdkT+".Coins).Len"] = func(c *callCtx) Val { return c.ret(app("slen", c.args[0].S)) }
 	libSpecs["("+sdkT+".Coins).IsZero"] = func(c *callCtx) Val { return c.ret(eq(app("slen", c.args[0].S), "0")) }
